@@ -65,7 +65,7 @@ ExpectInt(p, tgt) == IF In(p, MustLo(tgt), MustHi(tgt)) THEN "ok"
                      ELSE IF ~In(p, Lo(tgt), Hi(tgt)) THEN "fail" ELSE "either"
 
 \* a call: [src, kind, a, d, rel, tgt]; kind: "int" | "float" | "nan" | "pinf" | "ninf" | "negzero" | "huge" | "nhuge" (+-1e300, float64 only)
-\*         | "bool" (d = 0/1) | "strint" (decimal text of the integer point) | "strfloat" ("1.5", "1e3") | "strbad" ("abc", "")
+\*         | "bool" (d = 0/1) | "strint" (decimal text of the integer point) | "strfloat" ("1.5", "1e3", and long decimal strings next to the midpoint of two adjacent float32 / float64 values: the nearest representable value is required, a double rounding picks the other neighbour) | "strbad" ("abc", "")
 \*         | "unsupported" (a struct / slice / func ...)
 Expect(c) ==
   CASE c.kind = "unsupported" -> "fail"
